@@ -1,5 +1,6 @@
 import BPT.C.Api
 import BPT.C.Errors
+import BPT.C.Gc
 import Driver.Util
 /- C-extension part of the driver.  Keys are `ord#serial`, values are object serials. -/
 namespace Driver
@@ -160,6 +161,7 @@ def cStep (p : CSt) (ws : List String) : CSt × String :=
   | ["wclear"], some s => fin (C.wclear (s.size + 1) s) fun s' => ({ p with st := some s' }, "ok")
   | ["dump"], some s => (p, cdump s)
   | ["refs"], some s => (p, fmtRefs (C.slots s))
+  | ["gcrefs"], some s => (p, fmtRefs (C.gcTraverse s))      -- what `tp_traverse` reports (`gc.get_referents`)
   | [op, _, _], some s =>
     if op == "badin" then (p, "false")      -- `sq_contains` clears every error of the lookup and answers 0
     else if op == "badset" || op == "badget" || op == "baddel" then
